@@ -511,6 +511,9 @@ class ADWIN(BaseWindow):
         self.num_buckets -= 1
         if bucket.idx == 0:
             self.buckets.pop()
+            # With m = 1 merging leaves intermediate rows empty
+            while len(self.buckets) > 1 and self.buckets[-1].idx == 0:
+                self.buckets.pop()
 
         return bucket_size
 
